@@ -555,6 +555,8 @@ fn payload_case<const R: usize>(endian: Endian, ty: Type, shape: [usize; R]) {
     let t: usize = kani::any();
     kani::assume(t <= n * sz + 16 && t <= 40);
     let td = TypeDescriptor::new(endian, ty);
+    kani::cover!(sz == 1 || (t % sz != 0 && t > n * sz), "extended by a partial value (item size > 1)");
+    kani::cover!(sz == 1 || (t % sz != 0 && t < n * sz), "cut inside a value (item size > 1)");
     let mut r = &bytes[..t];
     match td.read(&mut r) {
         Ok(v) => {
@@ -574,8 +576,6 @@ fn payload_case<const R: usize>(endian: Endian, ty: Type, shape: [usize; R]) {
         }
         Err(e) => {
             assert!(t % sz != 0);
-            kani::cover!(sz == 1 || t > n * sz, "extended by a partial value (item size > 1)");
-            kani::cover!(sz == 1 || t < n * sz, "cut inside a value (item size > 1)");
             core::mem::forget(e);
         }
     }
